@@ -1190,3 +1190,199 @@ def isolation_suite(run, scratch, seed, n, hashseeds=(1, 4242)):
                           "template, frames and additional data before/after must be unchanged; random seeds are fixed before each run",
                   "samples": [{"name": s["name"], "template": s["template"], "runs": s["runs"]} for s in sessions[:2]]})
     return stats
+
+
+# ---------------------------------------------------------------- C18: reports
+def replay_case_of(c, ic, extra):
+    """the backtest that replays the transaction list of a finished run through ReplayTransactions: a flat strategy holding
+    every traded ticker, same data / costs / position mode; None when the run is outside the round-trip's scope"""
+    from gen_engine import hx
+    rt = sorted(((int(k[3:]), v) for k, v in extra.items() if k.startswith("RT ")), key=lambda kv: kv[0])
+    if not rt:
+        return None
+    tree = c["tree"]
+    nested = any(k[0] == "strat" for k in tree[3])
+    if tree[2]:
+        return None                                   # fixed-income books: notional-based, different round trip
+    if nested and c["comm"] != ["none"]:
+        return None                                   # fees are charged per sub-strategy trade, the list is per ticker
+    js = json.dumps(tree)
+    if '"capitalflow"' in js or '"useradjust"' in js:
+        return None                                   # external flows / user bookings are not transactions
+    mults = {}
+
+    def walk(t):
+        if t[0] == "sec":
+            mults.setdefault(t[1], t[4])
+        else:
+            for k in t[3]:
+                walk(k)
+    walk(tree)
+    ids = sorted({int(v[1][1:]) for _, v in rt})
+    if any(v[3] == "nan" for _, v in rt):
+        return None
+    if len({json.dumps([k[4] for k in ks]) for ks in [[t for t in _secs(tree) if t[1] == i] for i in ids]}) and \
+            any(len({t[4] for t in _secs(tree) if t[1] == i}) > 1 for i in ids):
+        return None                                   # one ticker with different multipliers in different sub-strategies
+    dates = [c["dates"][0] - 86400] + list(c["dates"])
+    txs = [[dates[int(v[0])], int(v[1][1:]), v[2], v[3]] for _, v in rt]
+    kids = [["sec", i, "sec", False, mults.get(i, hx(1.0)), False] for i in ids]
+    n = len(c["dates"])
+    bo = c.get("bidoffer") or [[t, [hx(0.0)] * n] for t, _ in c["prices"]]
+    r = dict(c)
+    r.update({"name": c["name"] + "_replay", "tree": ["strat", tree[1], False, kids, [["replay", 900]]],
+              "adata": [[900, ["trans", txs]]], "bidoffer": bo, "reports": True})
+    return r
+
+
+def _secs(t):
+    if t[0] == "sec":
+        return [t]
+    out = []
+    for k in t[3]:
+        out += _secs(k)
+    return out
+
+
+def report_suite(run, scratch, seed, n, name="reports"):
+    import gen_backtest
+    import oracles as O
+    half = n // 2
+    cases = gen_backtest.gen_cases(seed, half) + gen_backtest.gen_wellformed_cases(seed + 1, n - half, prefix="v")
+    for k, c in enumerate(cases):
+        c["reports"] = True
+        c["peek"] = (k % 2 == 1)      # every other run is also read while it runs (root.positions / outlays after each root stack call)
+    tally = {"equal": 0, "drift": 0, "diff": 0}
+    first_diff = None
+    completed, bad, nontrivial = 0, 0, set()
+    shapes = {"flat": 0, "nested": 0, "shared_ticker": 0, "no_trades": 0, "shorts": 0, "bidoffer": 0, "fixed_income": 0}
+    replays, originals = [], {}
+    for i in range(0, len(cases), 100):
+        part = cases[i:i + 100]
+        di = common.parse_dump(common.run_impl(scratch, "impl_reports.py", json.dumps(part)))
+        dm = common.parse_dump(common.run_model("\n".join(common.bt_case_to_sexp(c) for c in part)))
+        for c in part:
+            ic, mc = di.get(c["name"]), dm.get(c["name"])
+            if ic is None or mc is None:
+                tally["diff"] += 1
+                first_diff = first_diff or (c, {"what": "case missing from output"})
+                continue
+            extra = {}
+            for st in ic["steps"]:
+                for key in list(st["state"]):
+                    if key.startswith(("REP ", "ERRAT ")):
+                        extra[key] = st["state"].pop(key)
+                    elif key.startswith(("RV ", "RT ")):
+                        extra[key] = st["state"][key]          # kept: compared with the model's reports
+            ic2, mc2 = ic, mc
+            if c.get("peek"):
+                # reading while running legitimately advances the clocks of idle securities (the model is not read):
+                # compare what the property is about, the reports and the recorded histories
+                def keep(side):
+                    return {"build": side["build"], "steps": [
+                        {"status": st["status"],
+                         "state": {k: v for k, v in st["state"].items()
+                                   if k.startswith(("RV ", "RT ")) or k.endswith(".stat") or k.split(" ")[1].startswith(("h_", "hg_", "ucol."))}}
+                        for st in side["steps"]]}
+                ic2, mc2 = keep(ic), keep(mc)
+            v, d = common.compare_case(ic2, mc2)
+            tally[v] += 1
+            if v == "diff" and first_diff is None:
+                first_diff = (c, d)
+            if ic["steps"][-1]["status"][1] != "ok":
+                continue
+            completed += 1
+            state = ic["steps"][-1]["state"]
+            nested = any(k[0] == "strat" for k in c["tree"][3])
+            shapes["nested" if nested else "flat"] += 1
+            shapes["fixed_income"] += 1 if c["tree"][2] else 0
+            shapes["bidoffer"] += 1 if c.get("bidoffer") else 0
+            secpaths = [key.split(" ")[0] for key in state if key.endswith(" h_positions") and "~" not in key]
+            names = [p.split(".")[-1] for p in secpaths]
+            shapes["shared_ticker"] += 1 if len(set(names)) < len(names) else 0
+            ntr = sum(1 for k in extra if k.startswith("RT "))
+            shapes["no_trades"] += 1 if ntr == 0 else 0
+            shapes["shorts"] += 1 if any(any(common.tok_val(t) < 0 for t in state[p + " h_positions"]) for p in secpaths) else 0
+            if ntr:
+                nontrivial.add(json.dumps([c["tree"], c["dates"][:3]]))
+            fails = O.c18_reports(c, ic, extra)
+            if fails:
+                bad += 1
+                if bad <= 3:
+                    run.violation({"suite": name, "case": c, "failures": fails[:6]}, "C18: %s (%s)" % (fails[0], c["name"]))
+            r = replay_case_of(c, ic, extra)
+            if r is not None and len(replays) < max(20, n // 3):
+                replays.append(r)
+                originals[r["name"]] = (c, ic, extra)
+    # ---- round trip through ReplayTransactions
+    import backtest_corr
+    rres = backtest_corr.run_cases([dict(r, reports=False) for r in replays], scratch) if replays else []
+    rt_ok = rt_bad = 0
+    for r, v, d, ric, rmc in rres:
+        tally[v] += 1
+        if v == "diff" and first_diff is None:
+            first_diff = (r, d)
+        c, ic, extra = originals[r["name"]]
+        if not ric or ric["steps"][-1]["status"][1] != "ok":
+            st = ric["steps"][-1]["status"] if ric else ["?"]
+            rt_bad += 1
+            if rt_bad <= 2:
+                run.violation({"suite": name + "_replay", "case": c, "replay_case": r, "status": st},
+                              "C18: replaying the transaction list of %s raised %s" % (c["name"], " ".join(st[1:])))
+            continue
+        so, sr = ic["steps"][-1]["state"], ric["steps"][-1]["state"]
+        msg = None
+        for key, toks in extra.items():
+            if key.startswith("RV positions:"):
+                tid = int(key[len("RV positions:n"):])
+                got = sr.get("r.%d h_positions" % tid) or ["0x0.0p+0"] * len(toks)     # never traded: not in the replay tree
+                if any(common.close(a, b) < 0 for a, b in zip(toks, got)):
+                    msg = "positions of n%03d are not reproduced" % tid
+        if msg is None and any(common.close(a, b) < 0 for a, b in zip(so["r hg_values"], sr["r hg_values"])):
+            k = [common.close(a, b) < 0 for a, b in zip(so["r hg_values"], sr["r hg_values"])].index(True)
+            msg = "values are not reproduced (row %d: %s vs %s)" % (k, common.tok_val(so["r hg_values"][k]), common.tok_val(sr["r hg_values"][k]))
+        if msg and msg.startswith("values"):
+            # K17: a same-day round trip in one security (net trade zero) costs spread / fees but is invisible to a
+            # list derived from position differences
+            hidden = False
+            for key, toks in so.items():
+                if key.endswith(" h_outlays") and "~" not in key:
+                    pos = [common.tok_val(t) for t in so[key[:-len("h_outlays")] + "h_positions"]]
+                    out = [common.tok_val(t) for t in toks]
+                    if any(out[k] != 0 and pos[k] == (pos[k - 1] if k else 0.0) for k in range(len(out))):
+                        hidden = True
+            if hidden:
+                run.known_seen.add("c18_K17_round_trip_not_listed")
+                rt_ok += 1
+                continue
+        if msg and msg.startswith("values") and c.get("bidoffer") and c["comm"][0] in ("prop", "maxflat"):
+            # K16: the original charges the fee on the mid price, the replay on the spread-inclusive custom price
+            run.known_seen.add("c18_K16_fee_on_custom_price")
+            rt_ok += 1
+            continue
+        if msg:
+            rt_bad += 1
+            if rt_bad <= 2:
+                run.violation({"suite": name + "_replay", "case": c, "replay_case": r},
+                              "C18: replaying the transaction list of %s through ReplayTransactions: %s" % (c["name"], msg))
+        else:
+            rt_ok += 1
+    if first_diff is not None:
+        c, d = first_diff
+        run.violation({"suite": name, "case": c, "difference": d, "n_disagreeing_cases": tally["diff"],
+                       "broken": "correspondence %s (model Reports.v / Algos.v vs bt/backtest.py, bt/core.py)" % name},
+                      "correspondence %s: implementation and model disagree on %d of %d backtests / reports; first: %s %s"
+                      % (name, tally["diff"], len(cases) + len(replays), c["name"], json.dumps(d)[:300]))
+    return {"evaluations": len(cases) + len(replays), "distinct_nontrivial": len(nontrivial), "completed_runs": completed,
+            "traces_validated_against_impl": tally["equal"] + tally["drift"], "bit_drift": tally["drift"], "disagreements": tally["diff"],
+            "oracle_failures": bad, "shape_histogram": shapes, "round_trips": {"attempted": len(replays), "reproduced": rt_ok, "failed": rt_bad},
+            "rule": "general and well-formed random backtests (flat / nested with tickers shared by sub-strategies / fixed-income, runs without "
+                    "trades, shorts, spreads on or off); every other run is also read while it runs (root.positions / outlays after each root "
+                    "stack call, as a monitoring algo would); after each run 13 report accessors are evaluated; weights, security weights, positions, "
+                    "outlays, Herfindahl index, turnover, Result.prices and the transaction list are compared bit for bit with the model's "
+                    "report functions (Reports.v) applied to the model's final tree, and recomputed independently from the raw node histories "
+                    "(weights x root = node value, security weights + cash fractions = 1, positions per ticker, cumulated quantities = positions, "
+                    "quantity x price x multiplier = capital spent incl. spread, stated turnover / HHI formulas); transaction lists of flat runs "
+                    "(and nested runs without fees) are replayed through ReplayTransactions in a flat strategy: positions and values must be "
+                    "reproduced; non-trivial = completed run with at least one transaction",
+            "samples": [{"name": c["name"], "tree": c["tree"], "dates": c["dates"][:4]} for c in cases[:2]]}
